@@ -244,6 +244,11 @@ pub struct Case {
     /// entries that are not directories
     #[serde(default)]
     pub skip_answers: bool,
+    /// every top-level entry of the tree is a root of its own (`WalkBuilder::new(a).add(b)...`) and the
+    /// walker looks at parent directories (`parents(true)`, no ignore-file kind enabled, so nothing is
+    /// filtered): the roots share the per-walk cache of parent matchers
+    #[serde(default)]
+    pub multi_root: bool,
 }
 
 #[derive(Debug)]
@@ -257,6 +262,29 @@ pub struct RunResult {
     pub counts: BTreeMap<&'static str, u64>,
     pub preemptions: u64,
     pub panicked: bool,
+    /// the run was given up by the wall-clock watchdog (some worker never came back to a hooked point)
+    pub watchdog: bool,
+}
+
+/// Set once a watchdog expiry has been confirmed by a second run: later runs in this process (the
+/// shrinker's) use a short watchdog.
+static HANG_CONFIRMED: std::sync::atomic::AtomicBool = std::sync::atomic::AtomicBool::new(false);
+/// Set while the run that confirms a first watchdog expiry is under way (10 s watchdog instead of 30 s).
+static HANG_SUSPECTED: std::sync::atomic::AtomicBool = std::sync::atomic::AtomicBool::new(false);
+/// Verdicts of cases that hung twice, and when the first one was confirmed: every such evaluation costs
+/// seconds, so 90 s after the first confirmation only memoised cases are answered (the shrinker then ends
+/// on the smallest case that really hung; the runner's re-confirmation finds it here).
+static HANG_MEMO: Mutex<Option<(Instant, std::collections::HashMap<String, Fail>)>> = Mutex::new(None);
+
+fn top_level_roots(tree: &[String]) -> Vec<String> {
+    let mut v: Vec<String> = vec![];
+    for p in tree {
+        let first = p.trim_end_matches(['/', '@']).split('/').next().unwrap_or("").to_string();
+        if !first.is_empty() && !v.contains(&first) {
+            v.push(first);
+        }
+    }
+    v
 }
 
 fn scratch_base() -> &'static str {
@@ -337,10 +365,23 @@ pub fn run_schedule(case: &Case) -> RunResult {
         let quit_at = case.quit_at;
         let follow = case.tree.iter().any(|p| p.ends_with('@'));
         let skip_answers = case.skip_answers;
+        let roots: Vec<String> = if case.multi_root { top_level_roots(&case.tree) } else { vec![] };
         std::thread::spawn(move || {
             let res = std::panic::catch_unwind(std::panic::AssertUnwindSafe(|| {
-                let mut b = WalkBuilder::new(&root);
+                let mut b = match roots.split_first() {
+                    Some((first, rest)) => {
+                        let mut b = WalkBuilder::new(root.join(first));
+                        for r in rest {
+                            b.add(root.join(r));
+                        }
+                        b
+                    }
+                    None => WalkBuilder::new(&root),
+                };
                 b.standard_filters(false).threads(n).follow_links(follow);
+                if !roots.is_empty() {
+                    b.parents(true);
+                }
                 b.build_parallel().run(|| {
                     let visited = visited.clone();
                     let counter = counter.clone();
@@ -375,6 +416,7 @@ pub fn run_schedule(case: &Case) -> RunResult {
     let mut panicked = false;
     let mut livelock_suspected = false;
     let mut livelock_confirmed = false;
+    let mut watchdog = false;
     loop {
         match rx.recv_timeout(Duration::from_millis(5)) {
             Ok(p) => {
@@ -416,12 +458,22 @@ pub fn run_schedule(case: &Case) -> RunResult {
                 }
             }
         }
-        if over || t0.elapsed() > Duration::from_secs(30) {
+        let limit = if HANG_CONFIRMED.load(Ordering::SeqCst) {
+            Duration::from_secs(2)
+        } else if HANG_SUSPECTED.load(Ordering::SeqCst) {
+            Duration::from_secs(10)
+        } else {
+            Duration::from_secs(30)
+        };
+        if over || t0.elapsed() > limit {
+            if !over {
+                watchdog = true;
+            }
             let mut st = ctl.m.lock().unwrap_or_else(|e| e.into_inner());
             st.mode = Mode::Abort;
             drop(st);
             ctl.cv.notify_all();
-            if t0.elapsed() > Duration::from_secs(40) {
+            if t0.elapsed() > limit + limit / 3 {
                 break;
             }
         }
@@ -451,7 +503,17 @@ pub fn run_schedule(case: &Case) -> RunResult {
         counts: st.counts.clone(),
         preemptions: st.preemptions,
         panicked,
+        watchdog: watchdog && !completed,
     }
+}
+
+fn expected_paths_of(case: &Case) -> Vec<String> {
+    let mut v = expected_paths(&case.tree);
+    if case.multi_root && !top_level_roots(&case.tree).is_empty() {
+        // the scratch directory itself is not a root then
+        v.retain(|p| !p.is_empty());
+    }
+    v
 }
 
 fn expected_paths(tree: &[String]) -> Vec<String> {
@@ -486,8 +548,50 @@ pub fn check(case: &Case) -> Verdict {
 }
 
 pub fn evaluate(case: &Case) -> (Verdict, Vec<(u8, bool, u8)>) {
+    if HANG_CONFIRMED.load(Ordering::SeqCst) {
+        let key = serde_json::to_string(case).unwrap_or_default();
+        let g = HANG_MEMO.lock().unwrap_or_else(|e| e.into_inner());
+        if let Some((since, memo)) = g.as_ref() {
+            if let Some(f) = memo.get(&key) {
+                return (Verdict::Fail(f.clone()), vec![]);
+            }
+            if since.elapsed() > Duration::from_secs(90) {
+                return (Verdict::Reject("budget after a confirmed hang exhausted (not executed)"), vec![]);
+            }
+        }
+    }
     let r = run_schedule(case);
     let d = r.decisions.clone();
+    if r.watchdog && !r.overrun && !r.livelock_confirmed && !r.panicked {
+        // Some worker never came back to a hooked point (blocked on something the hooks do not cover, a
+        // lock for instance). The schedule is a function of the case: believe it if it happens again.
+        HANG_SUSPECTED.store(true, Ordering::SeqCst);
+        let again = run_schedule(case);
+        HANG_SUSPECTED.store(false, Ordering::SeqCst);
+        if again.watchdog && !again.overrun && !again.panicked {
+            HANG_CONFIRMED.store(true, Ordering::SeqCst);
+            let f = Fail::new(format!(
+                "the walk does not terminate: under this schedule a worker never returns to a hooked synchronisation point (blocked outside the deque / counter / quit protocol), in two runs in a row\n tree={:?} multi_root={}\n workers={} quit_at={:?}\n chooser={:?}\n grants by point: {:?}\n visited ({}): {:?}",
+                case.tree,
+                case.multi_root,
+                case.workers,
+                case.quit_at,
+                case.chooser,
+                again.counts,
+                again.visited.len(),
+                again.visited
+            ))
+            .fact("non-termination")
+            .fact("worker-blocked-outside-hooks");
+            {
+                let mut g = HANG_MEMO.lock().unwrap_or_else(|e| e.into_inner());
+                let (_, memo) = g.get_or_insert_with(|| (Instant::now(), std::collections::HashMap::new()));
+                memo.insert(serde_json::to_string(case).unwrap_or_default(), f.clone());
+            }
+            return (Verdict::Fail(f), d);
+        }
+        return (Verdict::Reject("watchdog expired once, not again (inconclusive)"), d);
+    }
     (judge(case, r), d)
 }
 
@@ -540,7 +644,7 @@ fn judge(case: &Case, r: RunResult) -> Verdict {
     if let Some((p, n)) = seen.iter().find(|(_, n)| **n > 1) {
         return Verdict::Fail(describe(format!("entry {p:?} was handed to a visitor {n} times")).fact("duplicate"));
     }
-    let want = expected_paths(&case.tree);
+    let want = expected_paths_of(case);
     if case.quit_at.map_or(true, |q| q >= r.visited.len()) {
         // no quit took effect: every entry exactly once
         let got: Vec<String> = seen.keys().cloned().collect();
@@ -566,6 +670,8 @@ fn judge(case: &Case, r: RunResult) -> Verdict {
     info.class_if(case.quit_at.is_some(), "quit_injected");
     info.class_if(n_dangling > 0, "error_entries(dangling_links)");
     info.class_if(case.skip_answers, "visitor_answers_skip_to_non_directories");
+    info.class_if(case.multi_root, "every_top_level_entry_is_a_root");
+    info.class_if(case.multi_root && top_level_roots(&case.tree).iter().filter(|r| case.tree.iter().any(|p| p.starts_with(&format!("{r}/")))).count() >= 2, "two_or_more_directory_roots");
     info.class_if(case.quit_at.map_or(false, |q| q < r.visited.len()), "quit_took_effect");
     info.class_if(r.counts.get("quit_write").copied().unwrap_or(0) >= 1, "quit_flag_written");
     info.class(match case.workers {
@@ -636,7 +742,8 @@ pub fn gen_case(t: &mut Tape) -> Case {
         Chooser::Vector(v)
     };
     let skip_answers = t.chance(1, 4);
-    Case { tree, workers, chooser, quit_at, skip_answers }
+    let multi_root = t.chance(1, 3);
+    Case { tree, workers, chooser, quit_at, skip_answers, multi_root }
 }
 
 /// Exhaustive enumeration of schedules with at most `p` preemptions for one
@@ -648,7 +755,7 @@ fn exhaustive(pc: &PropCtx, sub: &str, tree: &[String], workers: usize, quit_at:
         if pc.has_failure() || runs >= cap {
             break;
         }
-        let case = Case { tree: tree.to_vec(), workers, chooser: Chooser::Sparse(pre.clone()), quit_at, skip_answers: false };
+        let case = Case { tree: tree.to_vec(), workers, chooser: Chooser::Sparse(pre.clone()), quit_at, skip_answers: false, multi_root: false };
         let (v, decisions) = evaluate(&case);
         runs += 1;
         if !pc.absorb(sub, &case, v) {
